@@ -368,7 +368,7 @@ func runWriteBack(c WBCase) *pbt.Result {
 
 var writeBackSpec = pbt.Register(pbt.Spec[WBCase]{
 	Prop: "C18", Name: "write-back",
-	Rule: "file of 0-10 lines (key lines with blanks around '=', raw or escaped values, empty values; comment lines with and without '=', indented, with trailing blanks; blank lines), options none|prefix|suffix|both and an exclusion list, 1-2 SetValues calls of 0-4 pairs (existing keys, new keys, keys already carrying the prefix, empty value = remove); after each call the file is read with the harness's own properties reader: key->value map == old ∪ new (empty = unset), comment/blank lines byte-identical and all surviving lines in their old order with new keys only appended, no key twice; then a reload must make every value of the file visible through all typed getters; non-trivial = at least one pair effectively written to a file that has comment lines",
+	Rule:  "file of 0-10 lines (key lines with blanks around '=', raw or escaped values, empty values; comment lines with and without '=', indented, with trailing blanks; blank lines), options none|prefix|suffix|both and an exclusion list, 1-2 SetValues calls of 0-4 pairs (existing keys, new keys, keys already carrying the prefix, empty value = remove); after each call the file is read with the harness's own properties reader: key->value map == old ∪ new (empty = unset), comment/blank lines byte-identical and all surviving lines in their old order with new keys only appended, no key twice; then a reload must make every value of the file visible through all typed getters; non-trivial = at least one pair effectively written to a file that has comment lines",
 	Quick: 6000, Thorough: 600000,
 	Draw: drawWriteBack, Run: runWriteBack,
 })
